@@ -8,7 +8,9 @@ package main
 
 import (
 	"fmt"
+	"go/ast"
 	"go/token"
+	"go/types"
 	"sort"
 	"strings"
 
@@ -546,8 +548,8 @@ func c18Build(c *Ctx, p *Prog, see *ssa.Function) *c18Model {
 		c.Anchor(rule, "heur.PieceValues (initialiser)")
 		return nil
 	}
-	vals, shape, err := literalInts(pk.TypesInfo, expr)
-	if err != nil || len(shape) != 1 || len(vals) < 7 {
+	vals, err := c18Literal(pk.TypesInfo, expr)
+	if err != nil || len(vals) < 7 {
 		c.Undec(rule, "heur.PieceValues#literal", expr.Pos(), "PieceValues is not a flat literal of >= 7 integer constants (%v)", err)
 		return nil
 	}
@@ -696,6 +698,36 @@ func c18Build(c *Ctx, p *Prog, see *ssa.Function) *c18Model {
 		}
 	}
 	return m
+}
+
+// c18Literal reads a one-dimensional array/slice literal of integer constants, keyed (`Pawn: 100`) or
+// not; as in the language an element without key follows its predecessor, elements not mentioned are 0.
+func c18Literal(info *types.Info, e ast.Expr) ([]uint64, error) {
+	cl, ok := ast.Unparen(e).(*ast.CompositeLit)
+	if !ok {
+		return nil, fmt.Errorf("not a composite literal")
+	}
+	var vals []uint64
+	next := int64(0)
+	for _, el := range cl.Elts {
+		if kv, ok := el.(*ast.KeyValueExpr); ok {
+			k, isc := constInt(info, kv.Key)
+			if !isc || k < 0 || k > 1<<16 {
+				return nil, fmt.Errorf("element key is not a small integer constant")
+			}
+			next, el = k, kv.Value
+		}
+		v, isc := constUint(info, el)
+		if !isc {
+			return nil, fmt.Errorf("element %d is not an integer constant", next)
+		}
+		for int64(len(vals)) <= next {
+			vals = append(vals, 0)
+		}
+		vals[next] = v
+		next++
+	}
+	return vals, nil
 }
 
 // ---------- symbolic helpers ----------
@@ -885,6 +917,14 @@ func (m *c18Model) lin(e *c18E, sign int, out map[string]int, depth int) {
 				return
 			}
 		}
+	case "call":
+		if is, note := m.promoCall(e); is {
+			if note != "" {
+				m.promoNote = note
+			}
+			out["promoVal"] += sign
+			return
+		}
 	}
 	out["?"+e.key()] += sign
 }
@@ -906,13 +946,68 @@ func c18LinStr(f map[string]int) string {
 
 // promoPhi: x merges 0 (not a promotion) with PieceValues[promo]-PieceValues[Pawn] (promotion).
 // Returns whether x is such a merge at all, and a note describing what is wrong with it.
+// c18Alt is one way a merged value comes about: the value and the branch conditions under which it is chosen.
+type c18Alt struct {
+	e      *c18E
+	guards []c18Guard
+}
+
+// promoPhi: the alternatives merged by phi x (one per incoming edge).
 func (m *c18Model) promoPhi(x *ssa.Phi) (bool, string) {
-	if len(x.Edges) != 2 {
+	var alts []c18Alt
+	for i, e := range x.Edges {
+		alts = append(alts, c18Alt{m.x(e), m.edgeGuards(x.Block().Preds[i], x.Block())})
+	}
+	return m.promoAlts(alts)
+}
+
+// promoCall: e is a call of a side-effect-free chess-3 function with several returns (a one-purpose
+// helper such as PromoGain(promo)): the alternatives are its returned values, with parameters bound to the
+// arguments, each under the conditions that lead to that return.
+func (m *c18Model) promoCall(e *c18E) (bool, string) {
+	call, ok := e.v.(*ssa.Call)
+	if !ok || e.op != "call" {
+		return false, ""
+	}
+	fn := call.Call.StaticCallee()
+	if fn == nil || !isOwn(fn) || len(fn.Blocks) == 0 || len(fn.Blocks) > 8 || len(fn.Params) != len(e.a) {
+		return false, ""
+	}
+	env := &c18Env{bind: map[*ssa.Parameter]*c18E{}}
+	for i, pr := range fn.Params {
+		env.bind[pr] = e.a[i]
+	}
+	var alts []c18Alt
+	for _, b := range fn.Blocks {
+		for _, in := range b.Instrs {
+			switch x := in.(type) {
+			case *ssa.BinOp, *ssa.UnOp, *ssa.FieldAddr, *ssa.IndexAddr, *ssa.Convert, *ssa.ChangeType, *ssa.Call, *ssa.DebugRef, *ssa.Field, *ssa.Index, *ssa.If, *ssa.Jump, *ssa.Phi:
+			case *ssa.Return:
+				if len(x.Results) != 1 {
+					return false, ""
+				}
+				var gs []c18Guard
+				for _, ce := range controllingConds(b) {
+					gs = append(gs, c18Guard{m.b.e(ce.Cond, env), ce.True})
+				}
+				alts = append(alts, c18Alt{m.b.e(x.Results[0], env), gs})
+			default:
+				return false, "" // stores, panics, ...: not a pure value helper
+			}
+		}
+	}
+	return m.promoAlts(alts)
+}
+
+// promoAlts: the alternatives are 0 (not a promotion) and PieceValues[promo]-PieceValues[Pawn] (promotion).
+// Returns whether they have that form at all, and a note describing what is wrong with it.
+func (m *c18Model) promoAlts(alts []c18Alt) (bool, string) {
+	if len(alts) != 2 {
 		return false, ""
 	}
 	zi := -1
-	for i, e := range x.Edges {
-		if m.x(e).isConst(0) {
+	for i, a := range alts {
+		if a.e.isConst(0) {
 			zi = i
 		}
 	}
@@ -920,14 +1015,14 @@ func (m *c18Model) promoPhi(x *ssa.Phi) (bool, string) {
 		return false, ""
 	}
 	f := map[string]int{}
-	m.lin(m.x(x.Edges[1-zi]), 1, f, 1)
+	m.lin(alts[1-zi].e, 1, f, 1)
 	if f["PV@promo"] == 0 {
 		return false, ""
 	}
 	if got := c18LinStr(f); got != "+1*PV@promo -1*PV[Pawn]" {
 		return true, "promotion bonus is " + got + ", expected +1*PV@promo -1*PV[Pawn]"
 	}
-	// the zero edge must be exactly the not-a-promotion edge
+	// the zero alternative must be exactly the not-a-promotion one
 	promoTest := func(g c18Guard) (isPromo, known bool) {
 		if (g.cond.op != "eq" && g.cond.op != "ne") || len(g.cond.a) != 2 {
 			return false, false
@@ -939,12 +1034,12 @@ func (m *c18Model) promoPhi(x *ssa.Phi) (bool, string) {
 		return (g.cond.op == "ne") == g.truth, true
 	}
 	zeroOK, bonusOK := false, false
-	for _, g := range m.edgeGuards(x.Block().Preds[zi], x.Block()) {
+	for _, g := range alts[zi].guards {
 		if is, known := promoTest(g); known && !is {
 			zeroOK = true
 		}
 	}
-	for _, g := range m.edgeGuards(x.Block().Preds[1-zi], x.Block()) {
+	for _, g := range alts[1-zi].guards {
 		if is, known := promoTest(g); known && is {
 			bonusOK = true
 		}
